@@ -69,3 +69,43 @@ Proof.
   pose proof (total_incentives_le_paid sp spf ssc isc users t ops true Hsp Hspf Hisc Q HK) as B1.
   fold rs0 rs in B0, B1. unfold inc_bal in B0, B1. simpl in B0, B1. rewrite F, S. split; assumption.
 Qed.
+
+(* ---------- every single claim is affordable ---------- *)
+From Osmo Require Import C08.IncStage C07.Base.
+
+Lemma zsum_member_le : forall f l q, (forall p, In p l -> 0 <= f p) -> In q l -> f q <= zsum f l.
+Proof.
+  induction l as [|a l IH]; intros q NN H; simpl in *; [destruct H|].
+  assert (R : 0 <= zsum f l) by (apply zsum_nonneg; intros p Hp; apply NN; right; exact Hp).
+  destruct H as [->|H]; [lia|]. pose proof (NN a (or_introl eq_refl)). pose proof (IH q (fun p Hp => NN p (or_intror Hp)) H). lia.
+Qed.
+
+Lemma claim_of_nonneg : forall rs d p, PI rs -> 0 < sc_of rs -> In p (s_pos (r_base rs)) -> 0 <= claim_of d rs p.
+Proof.
+  intros rs d p [RI [RM [TOT FR]]] HSC Hp. pose proof RI as [I _]. unfold claim_of.
+  destruct (claimable_spread rs (ps_id p)) as [c|] eqn:EC; [|lia].
+  unfold claimable_spread in EC. rewrite (in_pos_get _ _ (inv_pos_sorted _ I) Hp) in EC. cbv beta iota in EC.
+  destruct (prepare_claimable_spread _ _ _ _ _ _) as [[w' c']|] eqn:E; [|discriminate EC]. inversion EC; subst c'. clear EC.
+  destruct (RM p Hp) as [r [R SH]].
+  assert (HT : 0 <= ac_total (rw_spread (r_rw rs))).
+  { rewrite TOT. apply zsum_nonneg. intros q Hq. pose proof (inv_pos_ok _ I) as F. rewrite Forall_forall in F. destruct (F q Hq) as [_ [X _]]. lia. }
+  destruct (prepare_claimable_spread_full _ _ _ _ _ _ _ _ _ E R HT HSC) as [_ [_ [_ [_ HD]]]].
+  destruct (HD d) as [_ [C0 _]]. exact C0.
+Qed.
+
+(* in every reachable state (rounding budget as above, queries succeed) each position's claimable spread rewards can be paid from
+   the spread-reward account, whatever the order of the claims *)
+Theorem each_spread_claim_affordable : forall sp spf ssc isc users t ops d q, 0 < sp -> 0 <= spf <= 500000000000000000 -> 0 < ssc ->
+  let rs0 := rinit sp spf ssc isc users t in
+  let rs := rrun rs0 ops in
+  (forall p, In p (s_pos (r_base rs)) -> claimable_spread rs (ps_id p) <> None) ->
+  hist_pcost rs0 ops + Z.of_nat (length (s_pos (r_base rs))) < 2 * ssc ->
+  In q (s_pos (r_base rs)) -> claim_of d rs q <= spread_bal d rs.
+Proof.
+  intros sp spf ssc isc users t ops d q Hsp Hspf Hssc rs0 rs HQ HK Hq.
+  pose proof (total_claimable_le_paid sp spf ssc isc users t ops d Hsp Hspf Hssc HQ HK) as T. fold rs0 rs in T.
+  destruct (PI_init sp spf ssc isc users t Hsp Hspf) as [P0 _].
+  destruct (paid_run ops rs0 P0 Hssc) as [A [B _]]. fold rs in A, B.
+  assert (SC : 0 < sc_of rs) by (rewrite B; exact Hssc).
+  pose proof (zsum_member_le (claim_of d rs) _ q (fun p Hp => claim_of_nonneg rs d p A SC Hp) Hq). lia.
+Qed.
